@@ -149,7 +149,7 @@ class DomState(object):
         self.blobs = {}             # name -> bytes of the last to_bytes
         self.shared_reader = L.DiffXDOMReader(L.DiffX)
         self.shared_writer = L.DiffXDOMWriter()
-        self.snaps = {}
+        self.snaps = None
         self.globals0 = snap_globals(L)
         self.log = []               # per-op results, for history checks
 
@@ -204,7 +204,13 @@ class DomActor(Actor):
 def run_dom_op(world, st, aid, op):
     L = world.L
     name = op.get('op')
-    before = {k: snap_tree(t) for k, t in sorted(st.trees.items())}
+    # nothing touches the trees between two steps, so the snapshot taken
+    # after the previous step is the one before this step
+    if st.snaps is not None and set(st.snaps) == set(st.trees):
+        before = st.snaps
+    else:
+        before = {k: snap_tree(t) for k, t in sorted(st.trees.items())}
+
     targets = [op.get('tree')] if name not in ('eq', 'ne') else []
     res = {'actor': aid, 'op': op, 'outcome': 'skip'}
     world.ev(aid, 'dom', name, op.get('tree'))
@@ -229,6 +235,7 @@ def run_dom_op(world, st, aid, op):
 
     # ---- invariants -----------------------------------------------------
     after = {k: snap_tree(t) for k, t in sorted(st.trees.items())}
+    st.snaps = after
 
     for k in sorted(before):
         if k not in after:
